@@ -52,3 +52,24 @@ Proof.
   intros H. unfold thr_edges, weight_edges. f_equal. apply filter_ext_in.
   intros e He. destruct (H e He). now apply keep_edge_weight_eq.
 Qed.
+
+(* ---- NULL probabilities ---- *)
+Lemma thr_edges_n_some t edges : thr_edges_n (Some t) edges = thr_edges (Some t) (non_null edges).
+Proof.
+  unfold thr_edges_n, thr_edges, non_null. induction edges as [|[ab [p|]] l IH]; cbn; [reflexivity| |exact IH].
+  unfold keep_edge. cbn. destruct (Qle_bool t p); cbn; [f_equal|]; exact IH.
+Qed.
+
+Lemma thr_edges_n_none edges : thr_edges_n None edges = map fst edges.
+Proof. unfold thr_edges_n. f_equal. induction edges as [|e l IH]; cbn; [reflexivity|]. now rewrite IH. Qed.
+
+Lemma thr_edges_n_in t edges a b :
+  In (a, b) (thr_edges_n (Some t) edges) <-> exists p, In (a, b, Some p) edges /\ (t <= p)%Q.
+Proof.
+  unfold thr_edges_n. rewrite in_map_iff. split.
+  - intros [[[a' b'] [p|]] [E H]]; cbn in E; injection E as -> ->; apply filter_In in H; destruct H as [H K]; cbn in K.
+    + exists p. split; [exact H|now apply Qle_bool_iff].
+    + discriminate K.
+  - intros [p [H K]]. exists (a, b, Some p). split; [reflexivity|]. apply filter_In. split; [exact H|].
+    cbn. now apply Qle_bool_iff.
+Qed.
